@@ -3057,7 +3057,7 @@ func (vm *Thread) opNegateInt() {
 		result = operand.NegateVal()
 	} else {
 		operand := operand.AsReference().(*value.BigInt)
-		result = value.Ref(operand.Negate())
+		result = operand.Negate().Normalize()
 	}
 	vm.replace(result)
 }
